@@ -918,8 +918,42 @@ class Exec:
         if k == 'const':
             if 'fn' in o:
                 return mk('fnref', o['fn']['def'])
-            return self.conv_const(o.get('val'), o['ty'])
+            val = o.get('val')
+            if isinstance(val, dict) and 'opaque' in val and 'promoted' in o and o['promoted'] is not True:
+                return self.run_promoted(st, o['promoted_owner'], o['promoted'])
+            return self.conv_const(val, o['ty'])
         raise Uncertified("operand kind %s" % k)
+
+    def run_promoted(self, st, owner, ix):
+        """Evaluate a promoted constant body that rustc could not evaluate generically (it has no parameters)."""
+        fn = self.pdb.fn(owner)
+        proms = fn.get('promoted') or []
+        if ix >= len(proms):
+            raise Uncertified("missing promoted body %d of %s" % (ix, owner))
+        mir = proms[ix]
+        fid = self.next_fid
+        self.next_fid += 1
+        s2 = State()
+        s2.frames[fid] = {}
+        ctx = {'key': owner, 'self_ty': None, 'depth': 0, 'fid': fid, 'promoted': ix}
+        save = self.cfgs.get(owner)
+        self.cfgs[owner] = CFG(mir)
+        try:
+            outs = self.run(ctx, mir, 0, s2, frozenset())
+        finally:
+            if save is not None:
+                self.cfgs[owner] = save
+            else:
+                del self.cfgs[owner]
+        rets = outs.get('ret', [])
+        if len(rets) != 1:
+            raise Uncertified("promoted constant with control flow in %s" % owner)
+        sf = rets[0][1]
+        ret = sf.frames[fid].get(0, UNDEF)
+        # references into the promoted's own frame become references to values
+        if ret[0] == 'ref' and ret[1][0] == fid:
+            return mk('ref', ('val', self.load(sf, ret)), None)
+        return ret
 
     def rvalue(self, st, fid, rv, key):
         k = rv['k']
